@@ -44,7 +44,7 @@ def tie_tables():
     try:
         gen, opts, rows = tr.emit(C.REPO)
         res["tables"] = (opts, rows)
-    except (tr.ExtractionError, SyntaxError, KeyError, IndexError, OSError) as e:
+    except Exception as e:      # fail closed
         res["ok"] = False
         res["detail"] = "table extraction rejects cmdline.py / cmdline_util.py: %s" % e
         return res
